@@ -4,7 +4,7 @@ C05: every persistence-matrix flavour computes the same, correct barcode and kee
 """
 N_UNITS_C05 = 16
 N_UNITS_C08 = 8
-DEPS = ["checks/pm_common.hpp", "checks/pm_configs.hpp"]
+DEPS = ["checks/pm_common.hpp", "checks/pm_configs.hpp", "checks/pm_verify.hpp"]
 
 
 def register(CHECKS, H):
